@@ -149,65 +149,91 @@ def locus_job(build, cfg, t0):
             pass
     if Sym.FORK is not None and Sym.FORK.constraints:
         assumptions = list(assumptions) + Sym.FORK.constraints
+    events = [list(e) for e in Sym.EQ_EVENTS]
     res = decide_job(cfg['group'], obs, assumptions, timeout_ms=cfg.get('timeout_ms', 60000), extra=info)
     res['cfg'] = cfg
+    res['eq_events'] = events
     res['build_s'] = time.time() - t0 - res['solver_s']
     return res
 
 
-def explore_loci(modname, results, run=None, admissible=None, max_new=24):
-    """second pass over the equality loci: wherever the executed package code compared a symbolic input with another symbolic input
-    or with a number (== / !=), the first pass took the generic branch (not equal).  Every such locus is explored with the equality
-    imposed (same symbol / that number), one follow-up per (locus, group); comparisons between compound expressions cannot be
-    imposed by renaming and are listed as not explored"""
+def explore_loci(modname, results, run=None, admissible=None, max_new=24, max_depth=3):
+    """further passes over the equality loci: wherever the executed package code compared a symbolic input with another symbolic
+    input or with a number (== / !=), the first pass took the generic branch (not equal).  Every such locus is explored with the
+    equality imposed (same symbol / that number), one follow-up per (locus, group); the comparisons met ON a locus are explored in
+    turn (loci of loci, up to `max_depth` equalities at once: `if B11 != 0 or B22 != 0 or B66 != 0` needs three); comparisons
+    between compound expressions other than products cannot be imposed by renaming and are listed as not explored"""
     from .harness import pmap
-    by_locus, unexplored, inadmissible = {}, [], set()
-    for r in results:
-        if r.get('error') or r.get('sat') or r.get('oob') or r.get('memview') or 'cfg' not in r or r['cfg'].get('alias'):
-            continue
-        cfg0 = r['cfg']
-        for a, b, where in r.get('eq_events', []):
-            a, b = (tuple(a) if a else None), (tuple(b) if b else None)
-            pairs = []
-            if a and b and a[0] == 'var' and b[0] in ('var', 'num'):
-                pairs = [(a[1], b[1])]
-            elif a and b and b[0] == 'var' and a[0] == 'num':
-                pairs = [(b[1], a[1])]
-            elif a and b and {a[0], b[0]} == {'prod', 'num'} and Fraction((a if a[0] == 'num' else b)[1]) == 0:
-                # a product of symbols compared with zero: one locus per factor that is an input (harness atoms are generic values)
-                pairs = [(nm, '0') for nm in (a if a[0] == 'prod' else b)[1].split(',') if '#' not in nm and '!' not in nm]
-            if not pairs:
-                if len(unexplored) < 20 and not any(u['where'] == where for u in unexplored):
-                    unexplored.append({'where': where, 'comparison': [a, b], 'configuration': cfg0['group']})
+    unexplored, inadmissible, comparisons, skipped, explored = [], set(), set(), [], []
+    out = list(results)
+    frontier = [r for r in results]
+    seen = set()
+    budget = max_new
+    for depth in range(max_depth):
+        by_locus = {}
+        for r in frontier:
+            if r.get('error') or r.get('sat') or r.get('oob') or r.get('memview') or 'cfg' not in r:
                 continue
-            for vn, to in pairs:
-                if '#' in vn or '!' in vn or '#' in to or '!' in to:
-                    continue            # harness atoms (integral tables, trig classes), not inputs
-                if admissible is not None and not admissible(vn, to, cfg0):
-                    inadmissible.add('%s %s  @ %s' % (vn, to, where))
+            cfg0 = r['cfg']
+            base_alias = dict(cfg0.get('alias') or {})
+            for a, b, where in r.get('eq_events', []):
+                a, b = (tuple(a) if a else None), (tuple(b) if b else None)
+                pairs = []
+                if a and b and a[0] == 'var' and b[0] in ('var', 'num'):
+                    pairs = [(a[1], b[1])]
+                elif a and b and b[0] == 'var' and a[0] == 'num':
+                    pairs = [(b[1], a[1])]
+                elif a and b and {a[0], b[0]} == {'prod', 'num'} and Fraction((a if a[0] == 'num' else b)[1]) == 0:
+                    # a product of symbols compared with zero: one locus per factor that is an input (harness atoms are generic values)
+                    pairs = [(nm, '0') for nm in (a if a[0] == 'prod' else b)[1].split(',') if '#' not in nm and '!' not in nm]
+                if not pairs:
+                    if len(unexplored) < 20 and not any(u['where'] == where for u in unexplored):
+                        unexplored.append({'where': where, 'comparison': [a, b], 'configuration': cfg0['group']})
                     continue
-                by_locus.setdefault((vn, to, where), [])
-                if not any(c['group'] == cfg0['group'] for c in by_locus[(vn, to, where)]):
-                    by_locus[(vn, to, where)].append(cfg0)
-    follow = []
-    depth = 0
-    while len(follow) < max_new and any(len(v) > depth for v in by_locus.values()):
-        for (vn, to, where), cfgs in sorted(by_locus.items()):
-            if len(cfgs) > depth and len(follow) < max_new:
-                c2 = dict(cfgs[depth], alias={vn: to}, group='%s:on-the-locus-%s=%s' % (cfgs[depth]['group'], vn, to))
-                c2.pop('canary', None)
-                follow.append(c2)
-        depth += 1
-    res2 = pmap(job, [(modname, c) for c in follow]) if follow else []
-    skipped = [{'locus': r['cfg']['alias'], 'configuration': r['cfg']['group'], 'why': r['locus_skipped']} for r in res2 if r.get('locus_skipped')]
-    res2 = [r for r in res2 if not r.get('locus_skipped')]
+                for vn, to in pairs:
+                    if '#' in vn or '!' in vn or '#' in to or '!' in to or vn in base_alias:
+                        continue            # harness atoms (integral tables, trig classes), not inputs
+                    if admissible is not None and not admissible(vn, to, cfg0):
+                        inadmissible.add('%s %s  @ %s' % (vn, to, where))
+                        continue
+                    comparisons.add('%s %s  @ %s' % (vn, to, where))
+                    alias = dict(base_alias)
+                    alias[vn] = to
+                    key = (cfg0.get('base_group', cfg0['group']), cfg0.get('variant', cfg0.get('rel')), tuple(sorted(alias.items())))
+                    if key in seen:
+                        continue
+                    seen.add(key)
+                    by_locus.setdefault((vn, to, where), []).append((cfg0, alias))
+        follow = []
+        k = 0
+        while len(follow) < budget and any(len(v) > k for v in by_locus.values()):
+            for lk, lst in sorted(by_locus.items()):
+                if len(lst) > k and len(follow) < budget:
+                    cfg0, alias = lst[k]
+                    base = cfg0.get('base_group', cfg0['group'])
+                    c2 = dict(cfg0, alias=alias, base_group=base,
+                              group='%s:on-the-locus-%s' % (base, ','.join('%s=%s' % kv for kv in sorted(alias.items()))))
+                    c2.pop('canary', None)
+                    follow.append(c2)
+            k += 1
+        if not follow:
+            break
+        budget -= len(follow)
+        res2 = pmap(job, [(modname, c) for c in follow])
+        skipped += [{'locus': r['cfg']['alias'], 'configuration': r['cfg']['group'], 'why': r['locus_skipped']} for r in res2 if r.get('locus_skipped')]
+        res2 = [r for r in res2 if not r.get('locus_skipped')]
+        explored += [r['cfg']['group'] for r in res2]
+        out += res2
+        frontier = res2
+        if budget <= 0:
+            break
     if run is not None:
         run.extra['equality_loci'] = {
-            'what': 'every ==/!= the executed package code applied to symbolic inputs; the first pass decides them as "not equal", the second pass re-runs the configuration with the equality imposed',
-            'comparisons': sorted({'%s %s  @ %s' % (k[0], k[1], k[2]) for k in by_locus}),
-            'explored': [r['cfg']['group'] for r in res2][:60], 'not_admissible_for_this_check': sorted(inadmissible)[:20],
+            'what': 'every ==/!= the executed package code applied to symbolic inputs; the first pass decides them as "not equal", further passes re-run the configuration with the equality imposed (and the equalities met there, up to %d at once)' % max_depth,
+            'comparisons': sorted(comparisons),
+            'explored': explored[:60], 'not_admissible_for_this_check': sorted(inadmissible)[:20],
             'not_explorable': skipped[:20], 'comparisons_between_compound_expressions': unexplored}
-    return results + res2
+    return out
 
 
 def concrete_replay(build, cfg, model_values):
